@@ -11,6 +11,7 @@ CHECKS = {
              'setUsedSize (unbounded loop closed by a loop contract) establishes the index invariant for every size 512..2^44; getIndex is in range and bucket-aligned for every key; '
              'probe/insert are proved with the table object modelled as exactly the used prefix, so any access into a resident tablebase or outside the table fails the pointer check; '
              'insert changes at most one slot and the changed slot decodes to one complete record for exactly the key; store/load xor encoding; torn-read lemma over all word mixes of two writers; '
+             'setBusy re-stores the probed record unchanged in meaning (one slot, same score at the ply, type, depth, evaluation, busy set); '
              'field independence of all accessors; ply shift of mate scores exact for every ply pair; TB byte region disjoint from the used part.',
         note=TRUST + 'Not decided: real thread interleavings (word atomicity of std::atomic<U64> is assumed, schedules are not explored); clear()/reSize() allocation paths; updateTB size arithmetic is covered under C12.',
         technique='CBMC function contracts + loop contract on extracted real code (dfcc), SAT back end',
@@ -51,23 +52,31 @@ CHECKS['C12'] = dict(
     design='4.8')
 CHECKS['C20'] = dict(
     text='Partial. Deductive proof (CBMC contracts, dfcc) on the extracted text of bitSet.hpp (both instantiations used by the solver: BitSet<64,-16> and BitSet<192,0>, 17 operations each) against a set spec '
-         '(ghost element + exact word-level facts), of CspSolver::makeEven/makeOdd/addMinVal/addMaxVal (stored domain is exactly the intersection) and getBitVal (returns a member of the domain for every preference order; '
-         'minimum for SMALL, maximum for LARGE).',
-    note=TRUST + 'NOT decided: makeArcConsistent (ghost-solution invariant written and cut mechanically; base and exit obligations close, the inductive step did not within 15 min) and solveRecursive/solve; '
-         'therefore "reports solvable exactly when a solution exists" is not decided by this check. Data bounds of the (unclaimed) solver groups: 10 variables, 25 constraints = the quantifier of C20.',
-    technique='CBMC function contracts on extracted real code (dfcc; template instantiated by the extractor), SAT back end',
-    design='4.11')
+         '(ghost element + exact word-level facts), of CspSolver::makeEven/makeOdd/addMinVal/addMaxVal (stored domain is exactly the intersection), getBitVal (returns a member of the domain for every preference order; '
+         'minimum for SMALL, maximum for LARGE), the loop of solve() that attaches every constraint to both of its variables (loop contract), and the SOUNDNESS of the backtracking search solveRecursive: '
+         'its consistency test accepts a value exactly when every attached constraint between assigned variables holds (fragment with loop contract and a ghost witness for every rejection), and when solveRecursive returns true '
+         'every constraint is satisfied and every value lies in its domain (outer loop contract; the recursive call is replaced by the same contract).',
+    note=TRUST + 'NOT decided: makeArcConsistent (ghost-solution invariant written and cut mechanically; base and exit obligations close, the inductive step did not within 15 min) and the completeness of solveRecursive (no solution missed); '
+         'therefore "reports unsolvable only when no solution exists" is not decided by this check. std::vector::assign in solve() is outside the subset (its effect is the precondition of the attach loop). '
+         'Data bounds of the solver groups: 10 variables, 25 constraints = the quantifier of C20.',
+    technique='CBMC function and loop contracts on extracted real code and fragments (dfcc; template instantiated by the extractor; recursion by contract), SAT back end',
+    design='4.11, 13.7')
 CHECKS['C01'] = dict(
-    text='Partial, layered. Deductive proof (CBMC contracts) on the extracted text of bitBoard.hpp / moveGen.hpp / moveGen.cpp: layer 0 bit primitives (firstBit/lastBit/extractBit/bitCount generic variants, mirror, fill, pawn-attack masks, '
-         'distances, Square methods, getDirection+dirTable) for all 2^64 masks / all square pairs; the attack test sqAttacked<wtm> (both colours) and inCheck equal the rules-of-chess spec on a fully symbolic board; '
-         'the list helpers addMovesByMask/addPawnMovesByMask<wtm>/addPawnDoubleMovesByMask append exactly the moves of their mask (unbounded loops closed by loop contracts, ghost move monitor).',
-    note=TRUST + 'Assumed contracts: BitBoard::rookAttacks/bishopAttacks return the ray sets (magic lookup tables not proved), king/knight/pawn attack tables and squaresBetween equal their coordinate definitions (table initialisation not proved yet), '
-         'MoveList::addMove appends its move (A-MAXMOVES: capacity 256 never exceeded). NOT decided in the quick tier: isLegal (verdict proof did not finish in 50 min), removeIllegal, givesCheck, the four generators (checkEvasions contract written: '
-         'generated set == evasion candidates; see DESIGN for status). FEN text layer not covered.',
-    technique='CBMC function and loop contracts on extracted real code (dfcc), ghost move monitor, SAT back end',
-    design='4.1')
+    text='Partial, layered. Deductive proof (CBMC contracts) on the extracted text of bitBoard.hpp/.cpp, moveGen.hpp, moveGen.cpp: layer 0 bit primitives (firstBit/lastBit/extractBit/bitCount generic variants, mirror, fill, pawn-attack masks, '
+         'distances, Square methods, getDirection+dirTable) for all 2^64 masks / all square pairs; initialisation of the king/knight/pawn attack tables and the en-passant masks (fragments of staticInitialize) and their lookups; '
+         'the attack test sqAttacked<wtm> (both colours) and inCheck equal the rules-of-chess spec on a fully symbolic board; the list helpers addMovesByMask/addPawnMovesByMask<wtm>/addPawnDoubleMovesByMask append exactly the moves of their mask '
+         '(loop contracts, ghost move monitor); the generators pseudoLegalMoves<w/b> (list == the pseudo-legal moves under the FIDE movement rules incl. castling conditions, double step, en passant, promotions, each once), '
+         'pseudoLegalCaptures<w/b> (list == captures, en-passant captures and queen/knight promotions) and checkEvasions<w/b> (target filter == capture the single checker or interpose; list == the evasion candidates) - each generator verified '
+         'as contiguous fragments that tile its body plus a composition group; thorough tier adds the piece sections of checkEvasions (15 min each) and givesCheck == playing the move and testing the opponent king (6-way case split, 10-36 min each).',
+    note=TRUST + 'Assumed contracts: BitBoard::rookAttacks/bishopAttacks return the ray sets (magic lookup tables not proved), squaresBetweenTable initialisation (lookup proved), '
+         'MoveList::addMove appends its move (A-MAXMOVES: capacity 256 never exceeded). Composition groups abstract the spec functions as uninterpreted functions (DESIGN 13.7). '
+         'NOT decided: the legality filter (removeIllegal; isLegal: only the king-move cases of the 12-way split discharge, not claimed), hence "treated as legal == legal" is decided up to that filter; pseudoLegalCapturesAndChecks; FEN text layer.',
+    technique='CBMC function and loop contracts on extracted real code and tiled fragments (dfcc), ghost move monitor, composition with uninterpreted spec functions, SAT back end',
+    design='4.1, 13.7')
 CHECKS['C04'] = dict(
     text='Lemmas only. Deductive proof (CBMC contracts) of the mate-score encoding chain on extracted real code: TTEntry::setScore/getScore ply shift exact for every ply pair, isCutOff rule for mate bounds, '
+         'TranspositionTable::setBusy re-stores a probed record with the same score at the same ply (same mate distance), type, depth and evaluation, '
+         'mate-distance pruning at the head of negaScout (fragment: beta is clipped to MATE0-(ply+1), cut exactly when alpha reaches it), '
          'internal score -> "mate N" conversion of Search::notifyPV (fragment), tablebase value -> score conversion of TBGenerator::probeDTM (fragment).',
     note=TRUST + 'NOT decided: that an announced mate is real (needs the whole search: mate-distance pruning, null move, quiescence, aspiration re-searches).',
     technique='CBMC function contracts on extracted real code and fragments (dfcc), SAT back end', design='4.3')
@@ -83,6 +92,16 @@ CHECKS['C18'] = dict(
     note=TRUST + 'Assumed contracts: file read lambda, MoveGen legal list (C01), Random::nextInt in [0,n), ::sqrt non-negative with square <= x+1, getWeight deterministic (in the selection proof). Data bounds of the selection proof: 4 book entries, 16 legal moves. '
          'Not decided: std::fstream behaviour, built-in book map, positive probability of every stored move.',
     technique='CBMC function and loop contracts on extracted real code and fragments (dfcc), SAT back end', design='4.10')
+CHECKS['C07'] = dict(
+    text='Partial: incremental first-layer state and feature-index symmetry only. Deductive proof (CBMC contracts) on the extracted text of nneval.cpp/.hpp: getIndex in range and invariant under colour swap and left-right mirroring; '
+         'the per-perspective body of NNEvaluator::setPiece (fragment, complete 5x5 case split on the queue lengths): accumulator + queued additions - queued subtractions stays equal to the from-scratch value of the changed board '
+         '(ghost model field, arbitrary weights as an uninterpreted function), including the overflow path that invalidates the state; FirstLayerState::clear.',
+    note=TRUST + 'BOUNDED stand-ins (reported separately in the evidence, not counted as proved): pushState/popState/forceFullEval on a stack of 8 levels instead of 400 (the 38 KB stack object is intractable). '
+         'The composition "setPiece = the fragment for both perspectives" rests on the pinned loop header (paper argument; the mechanical composition group hit a CBMC defect, DESIGN 13.8). '
+         'One generic 16-bit lane stands for the 256 lanes (A-LANE). Assumed: computeL1WB leaves both perspectives consistent. '
+         'NOT decided: computeL1WB/computeL1Out/layers 2-4/eval (value == from-scratch evaluation), SIMD variants, endGameEval symmetry, evaluation caches, whole-evaluation symmetry.',
+    technique='CBMC function contracts on extracted real code and fragments (dfcc), ghost model field, uninterpreted weight table, complete case split, SAT back end',
+    design='4.5, 13.8')
 NOT_APPLICABLE = {
     'C01': 'planned (DESIGN 4.1) but not built yet in this round; no claim until its first layer is green',
     'C02': 'planned (DESIGN 4.2) but not built yet',
